@@ -55,6 +55,58 @@ def configs(quick):
     return out
 
 
+def small_step_laws(chk, rng, quick):
+    """Steps of very different and of nearly equal size on ONE simulator object from one state: the documented explicit step is
+    state + dt * RHS + O(dt^2), so the increment doubles with dt, and a step does not remember the steps before it."""
+    shim.set_backend("compile")
+    plans = [({"sim": "ns2", "shape": (8, 10), "forcing": True, "free_stream": True, "w": 2, "h": 2.0, "rho": 2.0, "nu": 0.5}, np.float32),
+             ({"sim": "ns3", "shape": (6, 7, 8), "forcing": True, "free_stream": True, "filter": "multiplicative", "order": 2, "w": 2, "h": 0.5, "rho": 0.5, "nu": 0.25}, np.float32),
+             ({"sim": "pt_scalar", "shape": (7, 9), "h": 0.25, "nu": 0.125}, np.float32),
+             ({"sim": "ns2", "shape": (9, 8), "forcing": False, "free_stream": True, "w": 1, "h": 0.5, "nu": 0.25}, np.float64)]
+    for cfg, real_t in plans[: 3 if quick else 4]:
+        sim = flowstep.get_sim(cfg, real_t)
+        D = len(cfg["shape"])
+        prim = sim.primary_field if cfg["sim"].startswith("pt") else sim.vorticity_field
+        m = 2
+        core_ = (Ellipsis,) + tuple(slice(m, -m) for _ in range(D))
+        s0 = np.zeros(prim.shape)
+        s0[core_] = rng.normal(size=s0[core_].shape)
+        v0 = rng.normal(size=sim.velocity_field.shape)
+
+        def step(dt):
+            prim[...] = s0
+            sim.velocity_field[...] = v0
+            if cfg.get("forcing"):
+                sim.eul_grid_forcing_field[...] = 0
+            if cfg.get("free_stream"):
+                sim.time_step(dt=real_t(dt), free_stream_velocity=np.zeros(D))
+            else:
+                sim.time_step(dt=real_t(dt))
+            return prim.astype(np.float64) - s0.astype(real_t).astype(np.float64)
+
+        base, f = 2.0**-10, 1 + 2.0**-11
+        dA = step(base)
+        dB = step(2 * base)
+        dC = step(base * f)                      # dt = 2^-10 (1 + 2^-11)
+        dA2 = step(base)                         # differs from the previous dt by 4.8e-7 only
+        chk.traces += 1
+        chk.count(("small steps", cfg["sim"], real_t.__name__))
+        nA = np.abs(dA).max()
+        errs = []
+        if nA == 0:
+            raise core.MachineryError(f"small-step check: the state of {cfg} does not move")
+        if not np.array_equal(dA2, dA):
+            errs.append(f"the same step (dt = 2^-10) from the same state gives another result after steps with dt = 2^-9 and 2^-10 (1 + 2^-11): max difference {np.abs(dA2 - dA).max():.3g} (increment {nA:.3g})")
+        # (filters and boundary damping act once per step whatever dt: the linearity laws apply to configurations without them)
+        linear = cfg.get("filter", "off") == "off" and (cfg["sim"].startswith("pt") or cfg.get("w", 2) == 0)
+        if linear and np.abs(dB - 2 * dA).max() > 0.05 * nA:
+            errs.append(f"doubling dt (2^-10 -> 2^-9) does not double the increment: max |d(2 dt) - 2 d(dt)| = {np.abs(dB - 2 * dA).max():.3g}, increment {nA:.3g}")
+        if linear and np.abs(dC - f * dA).max() > 0.0002 * nA + 16 * float(np.finfo(real_t).eps) * np.abs(s0).max():
+            errs.append(f"dt larger by the factor 1 + 2^-11 does not enlarge the increment accordingly: max deviation {np.abs(dC - (1 + 2.0**-6) * dA).max():.3g}, increment {nA:.3g}")
+        for er in errs[:2]:
+            chk.violation({"kind": "small_steps", "sim": cfg["sim"]}, f"{cfg} ({real_t.__name__}): {er}")
+
+
 def run(chk: core.Check):
     shim.install()
     quick = chk.tier == "quick"
@@ -93,6 +145,7 @@ def run(chk: core.Check):
             if len(chk.samples) < 3:
                 chk.sample({"cfg": {k: (list(v) if isinstance(v, tuple) else v) for k, v in cfg.items()}, "scale": e["scale"], "post": e["post"],
                             "om0_first_row": e["om0"][0][0] if cfg["sim"] != "ns3" else e["om0"][0][0][0]})
+    small_step_laws(chk, rng, quick)
     for issue in sorted(set(flowstep.CONSTRUCTION_ISSUES)):
         chk.violation({"kind": "construction"}, issue)
     chk.extra["configurations"] = len(cfgs)
